@@ -98,9 +98,9 @@ func buildIntrinsics() map[string]intrinsic {
 	}
 	m[vpkg+"verifAssert"] = func(e *Engine, fr *frame, a []value) value {
 		label := e.argStr(a[1])
-		// "Cxx: ..." labels belong to one property; under another property's check they are not decided
+		// "Cxx: ..." labels belong to one property; under another property's check they are neither decided nor
+		// assumed (assuming them would hide this property's violations wherever the other property fails too)
 		if e.cfg.Property != "" && len(label) > 4 && label[0] == 'C' && label[3] == ':' && label[:3] != e.cfg.Property {
-			e.assume(a[0].(*Term))
 			return nil
 		}
 		if e.pos < len(e.prefix) {
